@@ -1051,6 +1051,150 @@ CHECKS["C18"] = {
 }
 
 
+AI_REPLIES = ["OK", "ok", "Ok.", "OK.", "oK", " OK", "OK\n", "OK!", "OK..", "OKAY", "NOT OK", "", "the list is not sorted", "bad \"quoted\" thing\nline2", "ünïcode → reply"]
+AI_FAULTS = ["no-key", "refused", "400-json", "401-plain", "404-json", "404-plain", "bad-json", "no-choices", "null-content", "empty-body", "mid-close"]
+AI_CONTENT = ["alpha", "  beta  ", "say \"hi\"", "back\\slash", "tab\there", "é→ü", "{\"json\": [1, 2]}", "", "k=v1", "line'quote", "emoji 😀", "\\n literal"]
+
+
+def c19_scenario(rnd, k, fault_kind):
+    nblocks = rnd.randint(1, 5)
+    files, plan, asyncs, patterns = {}, {}, [], []
+    fault_at = rnd.randrange(nblocks) if fault_kind else None
+    for b in range(nblocks):
+        p = f"{rnd.choice(['', 'src/'])}a{b % 2}.{rnd.choice(['py', 'sh'])}"
+        cond = rnd.choice(["must be sorted", "no TODO left", "mentions <b> & co", "it's fine", "say \\ twice", "ünï → cond", "a=b; c"]) + f" #{k}.{b}"
+        attrs = f" check-ai=\"{cond}\"" if "\"" not in cond else f" check-ai='{cond}'"
+        if rnd.random() < 0.3:
+            attrs += f" name=\"n{b}\""
+        if rnd.random() < 0.25:
+            attrs += f" severity=\"{rnd.choice(['warning', 'info', 'Hint', 'error'])}\""
+        if rnd.random() < 0.25:
+            pat = rnd.choice(["k=(?P<value>\\w+)", "k=\\w+", "nomatch\\d{5}"])
+            attrs += f" check-ai-pattern='{pat}'"
+            patterns.append(pat)
+        body = "".join(rnd.choice(AI_CONTENT) + "\n" for _ in range(rnd.randint(0, 3)))
+        files[p] = files.get(p, "") + f"# <block{attrs}>\n{body}# </block>\n"
+        if fault_kind and b == fault_at:
+            if fault_kind not in ("no-key", "refused"):
+                plan[cond] = {"fault": fault_kind}
+            asyncs.append({"v": "check-ai", "arg": cond, "out": {"err": "ai-error"}})
+        else:
+            reply = rnd.choice(AI_REPLIES)
+            plan[cond] = {"reply": reply}
+            out = {"err": "ai-error"} if fault_kind in ("no-key", "refused") else {"reply": reply}
+            asyncs.append({"v": "check-ai", "arg": cond, "out": out})
+    paths = sorted(files)
+    raw = {"files": [{"path": p, "text": t} for p, t in files.items()], "walk": paths, "allow": paths, "scan": True,
+           "patterns": patterns, "async": asyncs, "meta": {"gen": "ai", "k": k, "fault": fault_kind, "blocks": nblocks}}
+    return raw, plan
+
+
+def c19_run(rep, tier, seed, tr):
+    import cli as C, random, shutil as _sh
+    sys.path.insert(0, os.path.join(K.ROOT, "tools"))
+    import fake_openai
+    rep.rules.append("1-5 AI blocks over 1-2 files with conditions and contents containing everything JSON must escape (quotes, backslashes, tabs, Unicode, emoji), optional check-ai-pattern; every reply from {OK, ok, Ok., OK., near misses ' OK', 'OK\\n', 'OK!', 'OK..', OKAY, NOT OK, empty, free text}; one of 11 faults (no key, connection refused, 400/401/404 with JSON or plain body, invalid JSON, no choices, null content, empty body, connection closed mid-body) injected on one request or none; a local fake endpoint records every request; non-trivial = every scenario")
+    rnd = random.Random(seed)
+    n = n_for(tier, 90, 900)
+    scen = []
+    for k in range(n):
+        fault = None if k % 3 != 2 else AI_FAULTS[(k // 3) % len(AI_FAULTS)]
+        scen.append(c19_scenario(rnd, k, fault))
+    d = os.path.join(K.WORK, rep.prop, "ai")
+    _sh.rmtree(d, ignore_errors=True); os.makedirs(d)
+    with open(os.path.join(d, "raw.jsonl"), "w") as f:
+        for raw, _ in scen:
+            f.write(json.dumps(raw) + "\n")
+    K.sh([K.BWH, "replay", "--out", d, "--no-impl", os.path.join(d, "raw.jsonl")])
+    K.run_model(os.path.join(d, "cases.jsonl"), os.path.join(d, "model.jsonl"))
+    cases = [json.loads(l) for l in open(os.path.join(d, "cases.jsonl"))]
+    models = [json.loads(l) for l in open(os.path.join(d, "model.jsonl"))]
+    def one(i):
+        raw, plan = scen[i]
+        fake = fake_openai.Fake(plan)
+        root = C.tmp_root()
+        try:
+            C.materialise(root, [(f["path"], f["text"]) for f in raw["files"]])
+            fault = raw["meta"]["fault"]
+            env = {"BLOCKWATCH_TERMINAL_MODE": "1", "BLOCKWATCH_AI_MODEL": f"model-{i}", "BLOCKWATCH_AI_API_KEY": f"key-{i}",
+                   "BLOCKWATCH_AI_API_URL": f"http://127.0.0.1:{fake.port}/v1", "NO_PROXY": "127.0.0.1", "no_proxy": "127.0.0.1"}
+            if fault == "no-key":
+                del env["BLOCKWATCH_AI_API_KEY"]
+            if fault == "refused":
+                s = __import__("socket").socket(); s.bind(("127.0.0.1", 0)); port = s.getsockname()[1]; s.close()
+                env["BLOCKWATCH_AI_API_URL"] = f"http://127.0.0.1:{port}/v1"
+            res = C.run_bw(root, [], env=env, timeout=120)
+            return res, list(fake.requests)
+        finally:
+            fake.stop()
+            _sh.rmtree(root, ignore_errors=True)
+    results = C.pmap(one, list(range(n)), workers=8)
+    for i, (res, reqs) in enumerate(results):
+        raw, plan = scen[i]
+        case, model = cases[i], models[i]
+        rep.evaluations += 1
+        rep.traces += 1
+        rep.nontrivial.add(i)
+        out = C.outcome_validate(res)
+        fault = raw["meta"]["fault"]
+        rep.count(f"ai:{'fault:' + fault if fault else 'no-fault'}:" + ("panic" if "panic" in out else f"exit{out.get('exit')}"))
+        if len(rep.samples) < 3:
+            rep.samples.append({"files": raw["files"], "plan": plan, "cli_exit": res["exit"], "requests": [r["body"]["messages"][-1]["content"] for r in reqs if "messages" in r["body"]][:3]})
+        problems = [{"field": f, "cli": a, "model_and_spec": b} for f, a, b in C.compare_cli_validate(out, model)]
+        if not fault:
+            want = sorted(model.get("ai_requests", []))
+            got = sorted(r["body"]["messages"][-1]["content"] for r in reqs if isinstance(r["body"], dict) and "messages" in r["body"])
+            if want != got:
+                problems.append({"field": "requests (user messages, one per block)", "cli": got, "model_and_spec": want})
+            for r in reqs:
+                b = r["body"]
+                if r["path"] != "/v1/chat/completions" or r["auth"] != f"Bearer key-{i}" or b.get("model") != f"model-{i}" or \
+                        [m.get("role") for m in b.get("messages", [])] != ["system", "user"] or not b["messages"][0].get("content"):
+                    problems.append({"field": "request shape (endpoint, key, model, system+user messages)", "cli": {"path": r["path"], "auth": r["auth"], "model": b.get("model")}, "model_and_spec": "POST /v1/chat/completions, Bearer key, configured model"})
+        else:
+            if res["exit"] in (0, None):
+                problems.append({"field": "exit", "cli": res["exit"], "model_and_spec": "non-zero: an endpoint fault must fail the run"})
+        if problems:
+            rep.violation({"property": rep.prop, "component": "check-ai against the fake endpoint", "what": "request / reply handling differs from the model", "scenario": raw, "plan": plan,
+                           "cli": res, "requests": reqs, "model": model, "differences": problems})
+
+
+def c19_search(rep, tier, seed, broken):
+    """an obligation broke (e.g. the reply literals changed): classify every catalogue reply through the binary and
+    compare with the property's own rule (OK, any letter case, optional final period)"""
+    import cli as C, shutil as _sh
+    sys.path.insert(0, os.path.join(K.ROOT, "tools"))
+    import fake_openai
+    with K.Lock():
+        K.build_repo_binary()
+    found = False
+    for reply in AI_REPLIES + ["Ok", "oK."]:
+        cond = "cond"
+        fake = fake_openai.Fake({cond: {"reply": reply}})
+        root = C.tmp_root()
+        try:
+            C.materialise(root, [("a.py", f"# <block check-ai=\"{cond}\">\nx\n# </block>\n")])
+            res = C.run_bw(root, [], env={"BLOCKWATCH_TERMINAL_MODE": "1", "BLOCKWATCH_AI_API_KEY": "k", "BLOCKWATCH_AI_API_URL": f"http://127.0.0.1:{fake.port}/v1"})
+        finally:
+            fake.stop(); _sh.rmtree(root, ignore_errors=True)
+        passes = reply.lower() in ("ok", "ok.")
+        got_pass = res["exit"] == 0 and res["stderr"].strip() == ""
+        if passes != got_pass:
+            found = True
+            rep.violation({"property": rep.prop, "what": f"reply {reply!r} must {'pass' if passes else 'produce a check-ai diagnostic'} but the run {'passed' if got_pass else 'reported / failed'}",
+                           "broken_obligation": broken.what, "detail": broken.detail, "reply": reply, "cli": res})
+    return found
+
+
+CHECKS["C19"] = {
+    "search": c19_search,
+    "module": "Bw.Props.C19", "needs_binary": True,
+    "level_note": DEFAULT_LEVEL_NOTE + " Partial: the HTTP stack, JSON escaping on the wire and the client's retry policy (429/5xx are retried and are outside the quantifier) are exercised against a local endpoint, not modelled; each fault kind is an outcome-oracle entry of the model.",
+    "trusted_base": TB_COMMON + ["tools/fake_openai.py (local endpoint, fault injection, request recording)", "async-openai / reqwest / hyper / tokio"],
+    "run": c19_run,
+}
+
+
 def replay(prop, path):
     """re-run one recorded case against the current tree and the model; print both outcomes"""
     data = json.load(open(path))
